@@ -60,9 +60,23 @@ def main():
         else:
             cmdw = build_cmd_from_demo(demo, old_root, scratch, mdir)
         res["demo_build_cmd"] = cmdw
+        # shell demos: run a copy of the whole demo directory with the agent's worktree path replaced by the scratch one
+        shdir = None
+        if cmdw is None:
+            shdir = os.path.join(scratch, "MUTATION", os.path.basename(mdir)); shutil.copytree(mdir, shdir)
+            for fn in os.listdir(shdir):
+                fp = os.path.join(shdir, fn)
+                try:
+                    txt = open(fp).read()
+                    txt = txt.replace(old_root + "/MUTATION/" + os.path.basename(mdir), shdir).replace(old_root, scratch)
+                    open(fp, "w").write(txt)
+                except Exception: pass
         def run_demo():
             if cmdw is None:
-                return sh("bash %s %s" % (demo, scratch), timeout=600)
+                try: return sh("bash %s" % os.path.join(shdir, os.path.basename(demo)), cwd=shdir, timeout=900)
+                except subprocess.TimeoutExpired:
+                    class T: returncode = 124; stdout = "timeout"
+                    return T()
             rb = sh(cmdw, cwd=scratch)
             if rb.returncode != 0: return rb
             exe = re.search(r"-o\s+(\S+)", cmdw).group(1)
@@ -93,7 +107,9 @@ def main():
     res["confirmed"] = bool(res.get("patch_applies") and res.get("testsuite_with_change") == "pass" and res.get("demo_with_change_rc", 0) != 0 and res.get("demo_without_change_rc", 1) == 0)
     out = os.path.join(V, "seeded", sid); os.makedirs(out, exist_ok=True)
     for f in os.listdir(mdir):
-        if f.startswith("demo.") or f == "patch.diff": shutil.copy(os.path.join(mdir, f), os.path.join(out, f))
+        fp = os.path.join(mdir, f)
+        if os.path.isfile(fp) and os.path.getsize(fp) < 300000 and f not in ("meta.json",) and not f.endswith((".o", ".log")) and not os.access(fp, os.X_OK):
+            shutil.copy(fp, os.path.join(out, f))
     meta = {}
     try: meta = json.load(open(os.path.join(mdir, "meta.json")))
     except Exception: pass
